@@ -49,7 +49,7 @@ func mapOrderedAppends(fn *FuncNode) []moSite {
 
 func checkC33(p *Prog, r *Result, tier string) {
 	r.Technique = "map-iteration-order taint rule over resource/plugins/cpumem/schedule (a slice appended to inside a range over a map is order-tainted until a sort of that slice dominates the function's exits), data-flow rules for the affinity argument and for the element the caller takes, reachability of the affinity reorder"
-	r.Explanation = "MO in the planner package every slice that is appended to while ranging over a Go map is sorted before the function returns (sort.Slice/SliceStable/Strings on that slice dominates every later return): the position of a plan in the returned list, and the order in which cores are considered, never depend on map iteration order; " +
+	r.Explanation = "PB before re-planning the whole origin allocation (CPU, cores, memory, NUMA memory) is subtracted from the usage, so the workload does not compete with itself for the place it already has; MO in the planner package every slice that is appended to while ranging over a Go map is sorted before the function returns (sort.Slice/SliceStable/Strings on that slice dominates every later return): the position of a plan in the returned list, and the order in which cores are considered, never depend on map iteration order; " +
 		"NO the per-NUMA-node planning loop of GetCPUPlans ranges over a sorted list of node ids whose comparator reads the affinity map (nodes holding the origin cores first), not over the map itself; " +
 		"TOPO every core-to-numa-node lookup of the planner reads resourceInfo.Capacity.NUMA; NR the resources recorded for the re-allocated workload are built from the FULL new request (delta + origin) and the chosen plan only, never from the delta request; " +
 		"AF1 CalculateRealloc passes the origin workload's CPU map as the affinity argument of GetCPUPlans and takes element 0 of the returned plans after an emptiness test; AF2 GetCPUPlans forwards that affinity map to every doGetCPUPlans call; AF3 a non-empty affinity map makes doGetCPUPlans build the origin host and reorder the new host by it, which switches the full-core planner to its affinity variant."
@@ -413,4 +413,7 @@ func checkC33(p *Prog, r *Result, tier string) {
 		r.check(setsFlag && nsort == 2 && disp, "AF3", R.Name+" / reordering sorts both core lists by the old position and switches the planner to its affinity variant", p.pos(R.Decl), "two stable sorts, affinity = true, getFullCPUPlans dispatches on it",
 			fmt.Sprintf("affinity flag set: %v; core lists sorted: %d of 2; full-core planner dispatches on the flag: %v", setsFlag, nsort, disp))
 	}
+	// PB: the origin is put back completely before the re-plan (shared with C10/C04 under ADM)
+	r.min("PB", 1)
+	checkReallocPutBack(p, r, "PB")
 }
